@@ -10,9 +10,9 @@ use lc3_ensemble::sim::{InternalRegister, MemAccessCtx, SimFlags, Simulator};
 use std::sync::{Arc, Mutex, OnceLock};
 
 #[derive(Clone, Copy, Debug)]
-enum Op { Load, Step, Run3, ToggleStrict, ToggleReal, ToggleIgnore, ToggleFrames, BpInsertPc, BpInsertReg, BpRemovePc, AddDev, RemoveDev3, SetKb, SetDisp, MmapPc, MunmapPc, WriteReg, WriteMem, WritePsr, TypeKey, Reset, MunmapPsr, MunmapMcr, SetInit }
-const OPS: [Op; 24] = [Op::Load, Op::Step, Op::Run3, Op::ToggleStrict, Op::ToggleReal, Op::ToggleIgnore, Op::ToggleFrames, Op::BpInsertPc, Op::BpInsertReg, Op::BpRemovePc,
-    Op::AddDev, Op::RemoveDev3, Op::SetKb, Op::SetDisp, Op::MmapPc, Op::MunmapPc, Op::WriteReg, Op::WriteMem, Op::WritePsr, Op::TypeKey, Op::Reset, Op::MunmapPsr, Op::MunmapMcr, Op::SetInit];
+enum Op { Load, Step, Run3, ToggleStrict, ToggleReal, ToggleIgnore, ToggleFrames, BpInsertPc, BpInsertReg, BpRemovePc, AddDev, RemoveDev3, SetKb, SetDisp, MmapPc, MunmapPc, WriteReg, WriteMem, WritePsr, TypeKey, Reset, MunmapPsr, MunmapMcr, SetInit, Deep }
+const OPS: [Op; 25] = [Op::Load, Op::Step, Op::Run3, Op::ToggleStrict, Op::ToggleReal, Op::ToggleIgnore, Op::ToggleFrames, Op::BpInsertPc, Op::BpInsertReg, Op::BpRemovePc,
+    Op::AddDev, Op::RemoveDev3, Op::SetKb, Op::SetDisp, Op::MmapPc, Op::MunmapPc, Op::WriteReg, Op::WriteMem, Op::WritePsr, Op::TypeKey, Op::Reset, Op::MunmapPsr, Op::MunmapMcr, Op::SetInit, Op::Deep];
 
 fn program() -> &'static ObjectFile {
     static P: OnceLock<ObjectFile> = OnceLock::new();
@@ -61,6 +61,8 @@ fn apply(w: &mut World, op: Op) -> Result<(), (String, String)> {
         Op::MunmapMcr => { if w.sim.munmap_internal(0xFFFE) { w.mcr_mapped = false; } }
         // the initialization strategy is a public flag like the others: switch between two deterministic strategies
         Op::SetInit => { let alt = MachineInitStrategy::Known { value: 0x2468 }; w.sim.flags.machine_init = if w.sim.flags.machine_init == alt { w.init } else { alt }; }
+        // scale: 300 nested calls that have not returned (a JSR-to-next sled at x6000), left live
+        Op::Deep => { for a in 0x6000..0x6200u16 { w.sim.mem[a].set(0x4800); } w.touched.extend(0x6000..0x6200); w.sim.pc = 0x6000; let _ = w.sim.run_with_limit(300); }
         Op::Reset => return reset_and_check(w),
     }
     Ok(())
@@ -90,6 +92,7 @@ fn reset_and_check(w: &mut World) -> Result<(), (String, String)> {
     if ssp != 0x3000 { return Err(("saved-sp".into(), format!("saved SP x{ssp:04X} after reset (mapping kept?), a new simulator has x3000"))); }
     if w.sim.instructions_run != 0 { return Err(("instruction-count".into(), format!("instructions_run = {}", w.sim.instructions_run))); }
     if w.sim.frame_stack.len() != 0 { return Err(("frame-depth".into(), format!("frame depth {}", w.sim.frame_stack.len()))); }
+    if let Some(f) = w.sim.frame_stack.frames() { if !f.is_empty() { return Err(("frame-list-not-empty".into(), format!("frame depth is 0 but the debug frame list still holds {} frames", f.len()))); } }
     if w.sim.frame_stack.frames().is_some() != flags.debug_frames { return Err(("debug-frames-flag".into(), format!("debug_frames={} but frames() is {:?}", flags.debug_frames, w.sim.frame_stack.frames().map(|f| f.len())))); }
     if w.sim.hit_halt() || w.sim.hit_breakpoint() { return Err(("pause-status".into(), "hit_halt/hit_breakpoint still set after reset".into())); }
     if !matches!(w.init, MachineInitStrategy::Unseeded) {
@@ -148,7 +151,7 @@ fn visit_with(h: &[u16], init: MachineInitStrategy) -> Visit {
 fn case_of(h: &[u16]) -> String { h.iter().map(|x| x.to_string()).collect::<Vec<_>>().join(",") }
 
 pub fn run(ctx: &Ctx) -> Report {
-    let mut rep = Report::new("explicit-state BFS over histories of 24 operations (switch machine_init between two deterministic strategies; load a program with calls, traps and I/O; step_in; run_with_limit(3); toggle strict / real traps / ignore privilege / debug frames; insert/remove PC and register breakpoints; add/remove a recording device; replace keyboard and display; map/unmap the PC register; unmap the default PSR and MCR mappings; host writes to a register, memory (user and OS), PSR and saved SP; type a key; reset) with reset() appended after EVERY prefix: all of 64K non-I/O memory, registers, PC, PSR, saved SP, frame depth/frames presence, instruction count and pause status must equal Simulator::new(same flags); flags, breakpoint set, MCR handle (Arc::ptr_eq), device handler (derived Debug), internal mappings and device dispatch must be kept. Known{x1357} (complete BFS) and Seeded{99} (same histories). non-trivial = states at depth >= 1");
+    let mut rep = Report::new("explicit-state BFS over histories of 25 operations (300 nested calls left live; switch machine_init between two deterministic strategies; load a program with calls, traps and I/O; step_in; run_with_limit(3); toggle strict / real traps / ignore privilege / debug frames; insert/remove PC and register breakpoints; add/remove a recording device; replace keyboard and display; map/unmap the PC register; unmap the default PSR and MCR mappings; host writes to a register, memory (user and OS), PSR and saved SP; type a key; reset) with reset() appended after EVERY prefix: all of 64K non-I/O memory, registers, PC, PSR, saved SP, frame depth/frames presence, instruction count and pause status must equal Simulator::new(same flags); flags, breakpoint set, MCR handle (Arc::ptr_eq), device handler (derived Debug), internal mappings and device dispatch must be kept. Known{x1357} (complete BFS) and Seeded{99} (same histories). non-trivial = states at depth >= 1");
     let depth = ctx.pick(4usize, 7usize);
     let known = MachineInitStrategy::Known { value: 0x1357 };
     let (states, transitions, frontier, per_depth, capped) = bfs_hist(ctx, &mut rep.acc, OPS.len(), depth, &|h| format!("k:{}", case_of(h)), |h| visit_with(h, known));
